@@ -116,6 +116,19 @@ add("C07", "E1",
     "counted.",
     "DESIGN.md §4 C07")
 
+add("C15", "E1",
+    "complete enumeration of all shipped entries (well-formedness + costing of one synthesised instruction each)",
+    "Every entry of every non-empty shipped model file and of both ISA databases is read as plain "
+    "YAML and checked field by field (micro-op lists and alternatives, ports within the port list, "
+    "throughput/latency, load/store tables and defaults); one instruction synthesised from each "
+    "entry's own pattern is costed through add_semantics, both balancing passes and KernelDG "
+    "(quick: 6 small models + ISA databases; thorough: all ~12.5k entries) and must not raise; "
+    "--db-check counts are compared with counts from the plain file. The space is finite and "
+    "covered completely in the thorough tier.",
+    "Trusted: plain-YAML reading by ruamel (safe loader), synthesiser mc/ref/match.py. The 22 snb "
+    "'DIV' port entries are a listed known finding.",
+    "DESIGN.md §4 C15")
+
 NOT_YET = {}
 
 def main():
